@@ -183,6 +183,14 @@ def chunk_worker(task):
     L = load_lentil()
     scn = scenarios.get(task.scn_name, task.prop)
     prepare(scn, L)
+    if getattr(scn, 'mem_gb', None):
+        # sessions whose legal workload is small: a runaway allocation under a broken tree fails fast instead of paging for minutes
+        try:
+            import resource
+            lim = int(float(scn.mem_gb) * (1 << 30))
+            resource.setrlimit(resource.RLIMIT_AS, (lim, lim))
+        except Exception:       # noqa
+            pass
     agg = {'probes': {}, 'faults': {}, 'steps': 0, 'runs': 0, 'hists': [], 'viol': {},
            'states': set(), 'schedules': set(), 'samples': [], 'audit': {}, 'oracle_checks': {}}
     for j, i in enumerate(task.indices):
